@@ -61,8 +61,47 @@ def run(tier, seed):
     return rep.finish()
 
 
+def _hs_job(c):
+    from harness import hooksets
+    try:
+        return hooksets.compare(c, hooksets.run(c))
+    except Exception as e:  # noqa
+        from lib.errors import describe
+        return ['error: ' + describe(e, 300)]
+
+
 def hooksets_part(rep, tier, seed):
-    pass
+    """which quantities a run records as a function of the hook classes listed by the user and added by controllers (HookSets.tla)"""
+    import multiprocessing as mp
+    import os
+    import shutil
+    import tempfile
+    from lib import tlc
+    scratch = tempfile.mkdtemp(prefix='verif_c14h_')
+    try:
+        cfg = os.path.join(scratch, 'HS.cfg')
+        tlc.write_cfg(cfg, spec='Spec', constants=dict(MAXLEN='2' if tier == 'quick' else '3'),
+                      invariants=['OncePerClass', 'NothingDropped', 'BaseSurvivesSubclass', 'Export'], check_deadlock=False)
+        r = tlc.run_tlc('HookSets', cfg, workers=4, timeout=900)
+        rep.add_tlc(r, 'HookSets: every list of user hooks x controller configuration')
+        if r.violation:
+            rep.violation('hooks.model.' + r.violation, dict(kind='model', module='HookSets', tlc_error=r.error_text[:3000]))
+        cases = [c for c in r.prints if isinstance(c, dict) and c.get('hs')]
+        if not cases:
+            rep.machinery.append('HookSets: nothing enumerated: ' + r.raw[-300:])
+        with mp.Pool(16) as pool:
+            out = pool.map(_hs_job, cases, chunksize=4)
+        for c, probs in zip(cases, out):
+            rep.traces += 1
+            for p in probs[:2]:
+                what = p.split(':')[0]
+                if what == 'error':
+                    rep.problem('hook configuration: ' + p, dict(kind='hook-set', case=c), clause='hooks.unexpected_library_error')
+                else:
+                    rep.violation('hooks.' + what, dict(kind='hook-set', case=c, problems=probs))
+        rep.cov['hook_configurations'] = len(cases)
+    finally:
+        shutil.rmtree(scratch, ignore_errors=True)
 
 
 # ---- part 2: the helper functions on arbitrary synthetic dictionaries (StatsHelpers.tla) -------------------------------------
